@@ -6,9 +6,17 @@
 //! groups and up to 6 secrets in 2-3 namespaces: set / get / list / rotate /
 //! delete / grant / grant_with_permission / grant_with_ttl / revoke / delegate
 //! (over one or several secrets) / batch_get / batch_set(_detailed) /
-//! MEMBER-edge changes, clock advances aimed just before, at and just after the
-//! expiry of a TTL grant (no cleanup pass is ever called by the harness), and
-//! store snapshots.
+//! revoke_delegation / revoke_delegation_cascading / MEMBER-edge changes, clock
+//! advances aimed just before, at and just after the expiry of a TTL grant (no
+//! cleanup pass is ever called by the harness), and store snapshots.
+//! Several parents may delegate overlapping secrets at different levels to one
+//! child (directly or through a chain), each delegation is revoked in any order,
+//! secrets are deleted and created again under the same name; the access model
+//! keeps one entry per (delegation record, secret).
+//! The identity pool may contain near-duplicates of other principals and of root
+//! (surrounding white space, newline, other case, a confusable character, an
+//! invisible character): identities are plain strings, each one is a principal
+//! of its own for the model.
 //!
 //! Oracle: an independent reference access model (grants with level and expiry
 //! window, membership edges, horizon + attenuation as documented in
@@ -72,6 +80,9 @@ pub enum Step {
         #[serde(default)]
         more: Vec<u8>,
     },
+    /// revoke_delegation(parent, child) / revoke_delegation_cascading(parent, child):
+    /// `parent` indexes all principals (as `who`), `child` the non-root ones (as `to`)
+    RevokeDeleg { parent: u8, child: u8, cascade: bool },
     /// batch_get(who, [secs]): the list form of get; one read decision per listed secret
     BatchGet { who: u8, secs: Vec<u8> },
     /// batch_set / batch_set_detailed(who, [(sec, value(val + k, sz))]): the list form of
@@ -105,6 +116,19 @@ pub struct Cfg {
     pub name_mode: u8,
     pub max_versions: u8,
     pub name_seed: u64,
+    /// identities whose key is a near-duplicate of another principal's key (absent in old
+    /// replay files: every identity is a well-formed random key)
+    #[serde(default)]
+    pub lookalikes: Vec<Lookalike>,
+}
+
+/// identity slot `slot` (1..=n_ids) carries the key of principal `of` (0 = root, an
+/// identity or a group) altered by `kind` (see `near_duplicate`)
+#[derive(Serialize, Deserialize, Clone, Copy, Debug, PartialEq)]
+pub struct Lookalike {
+    pub slot: u8,
+    pub of: u8,
+    pub kind: u8,
 }
 
 #[derive(Serialize, Deserialize, Clone, Debug)]
@@ -154,6 +178,60 @@ struct Names {
     n_ids: usize,
     secrets: Vec<String>,
     sec_ns: Vec<String>,
+    /// near-duplicate key -> the key it was derived from
+    alias_of: BTreeMap<String, String>,
+}
+
+pub const N_LOOKALIKE_KINDS: u8 = 12;
+
+/// A key that a human (or a careless normalisation) would take for `key` and that is a
+/// different string: "for every ... name (arbitrary UTF-8)" / "a requester other than the
+/// root identity" — the vault identifies requesters by their key, nothing else.
+fn near_duplicate(key: &str, kind: u8) -> String {
+    let (head, tail) = match key.find(':') {
+        Some(i) => (&key[..i], &key[i..]),
+        None => (key, ""),
+    };
+    match kind % N_LOOKALIKE_KINDS {
+        0 => format!("{key} "),
+        1 => format!(" {key}"),
+        2 => format!("{key}\n"),
+        3 => format!("\t{key}"),
+        4 => format!(" {key} "),
+        // other case
+        5 => key.to_uppercase(),
+        6 => {
+            let mut c = head.chars();
+            match c.next() {
+                Some(f) => format!("{}{}{tail}", f.to_uppercase(), c.as_str()),
+                None => format!("{key} "),
+            }
+        },
+        // a confusable character: the first Latin letter that has a Cyrillic twin
+        7 => {
+            const TWINS: &[(char, char)] = &[('o', '\u{43e}'), ('e', '\u{435}'), ('a', '\u{430}'), ('c', '\u{441}'), ('p', '\u{440}'), ('x', '\u{445}'), ('y', '\u{443}'), ('s', '\u{455}'), ('i', '\u{456}')];
+            let mut done = false;
+            let out: String = key
+                .chars()
+                .map(|ch| {
+                    if !done {
+                        if let Some((_, t)) = TWINS.iter().find(|(l, _)| *l == ch) {
+                            done = true;
+                            return *t;
+                        }
+                    }
+                    ch
+                })
+                .collect();
+            if done { out } else { format!("{key}\u{200b}") }
+        },
+        // invisible characters
+        8 => format!("{key}\u{200b}"),
+        9 => format!("{key}\0"),
+        // full-width colon, no-break space
+        10 => key.replacen(':', "\u{ff1a}", 1),
+        _ => format!("{key}\u{a0}"),
+    }
 }
 
 impl Names {
@@ -167,6 +245,27 @@ impl Names {
         }
         for _ in 0..n_groups {
             principals.push(format!("team:{}", alnum(&mut r, 10)));
+        }
+        // near-duplicates take identity slots; the original must be a principal that is not a
+        // near-duplicate itself, and the altered key must be new (else the slot keeps its key)
+        let mut alias_of = BTreeMap::new();
+        let mut taken: BTreeSet<usize> = BTreeSet::new();
+        for l in &cfg.lookalikes {
+            let (slot, of) = (l.slot as usize, l.of as usize);
+            if slot == 0 || slot > n_ids || of >= principals.len() || of == slot || taken.contains(&of) || taken.contains(&slot) {
+                continue;
+            }
+            // (a slot that serves as an original elsewhere keeps its key)
+            if cfg.lookalikes.iter().any(|m| m.of as usize == slot) {
+                continue;
+            }
+            let key = near_duplicate(&principals[of], l.kind);
+            if key == principals[of] || principals.contains(&key) {
+                continue;
+            }
+            alias_of.insert(key.clone(), principals[of].clone());
+            principals[slot] = key;
+            taken.insert(slot);
         }
         let n_ns = cfg.n_ns.clamp(1, 4) as usize;
         let n_secrets = cfg.n_secrets.clamp(1, 8) as usize;
@@ -201,7 +300,7 @@ impl Names {
                 sec_ns.push(ns);
             }
         }
-        Names { root: Vault::ROOT.to_string(), principals, n_ids, secrets, sec_ns }
+        Names { root: Vault::ROOT.to_string(), principals, n_ids, secrets, sec_ns, alias_of }
     }
     fn who(&self, i: u8) -> &str {
         &self.principals[i as usize % self.principals.len()]
@@ -274,6 +373,17 @@ struct MGrant {
     dead: Option<&'static str>,
     /// index among TTL grants issued in this run
     ttl_idx: Option<usize>,
+    /// the delegation record (serial number of the successful `delegate` call) this entry
+    /// belongs to; None for grant / grant_with_permission / grant_with_ttl
+    rec: Option<u32>,
+}
+
+/// One delegation record: what `delegate(parent, child, secrets, ..)` registered. The vault
+/// keeps one record per (parent, child); a later delegation between the same two replaces it.
+#[derive(Clone, Debug)]
+struct MRecord {
+    id: u32,
+    secs: Vec<usize>,
 }
 
 #[derive(Default)]
@@ -282,6 +392,11 @@ struct Model {
     value: Vec<Option<String>>,
     grants: Vec<MGrant>,
     members: BTreeSet<(String, String)>, // child -> group
+    /// current delegation record per (parent, child)
+    records: BTreeMap<(String, String), MRecord>,
+    next_rec: u32,
+    /// parent of every record ever made, by record id
+    rec_parent: Vec<String>,
     admin_limit: usize,
     write_limit: usize,
     horizon: usize,
@@ -542,6 +657,8 @@ struct Run<'a> {
     /// set once a WallStep / Reload was executed: verdicts become observations
     tainted: Option<&'static str>,
     revoked_pairs: BTreeSet<(String, usize)>,
+    /// (child, secret) pairs of delegation records taken back by revoke_delegation(_cascading)
+    deleg_revoked_pairs: BTreeSet<(String, usize)>,
     deleted_secs: BTreeSet<usize>,
     viols: Vec<(u8, Violation)>,
     obs: BTreeSet<String>,
@@ -585,6 +702,14 @@ impl<'a> Run<'a> {
 
     fn now(&self) -> u64 {
         self.ctx.now_mono_ns()
+    }
+
+    /// a principal's key for a report, with what it is a near-duplicate of
+    fn describe(&self, key: &str) -> String {
+        match self.names.alias_of.get(key) {
+            Some(orig) => format!("\"{}\" (a key of its own, near-duplicate of \"{}\")", short(key), short(orig)),
+            None => short(key),
+        }
     }
 
     fn violation(&mut self, prio: u8, class: String, detail: String) {
@@ -829,7 +954,8 @@ impl<'a> Run<'a> {
                     let who = if req.starts_with("team:") { "group" } else { "identity" };
                     let class = format!("C14.access-without-live-grant/{op}/{reason}");
                     let detail = format!(
-                        "{op} by {who} {req} on secret #{sec} succeeded; model: best live level {} (needs {}), reason {reason}, call window [{t0},{t1}] ns",
+                        "{op} by {who} {} on secret #{sec} succeeded; model: best live level {} (needs {}), reason {reason}, call window [{t0},{t1}] ns",
+                        self.describe(req),
                         lvl_name(pmax),
                         lvl_name(need)
                     );
@@ -848,11 +974,20 @@ impl<'a> Run<'a> {
                     let sibling_expired = self.m.grants.iter().any(|g| {
                         g.sec == sec && dist.contains_key(&g.grantee) && g.exp.is_some_and(|(lo, _)| lo <= t1)
                     });
-                    let why = if sibling_expired { "expired-ttl-sibling-grant-of-same-pair" } else { "unexplained" };
+                    // second known cause: revoke_delegation(_cascading) removes EVERY access edge
+                    // of the (child, secret) pairs of the record, whoever granted them
+                    let deleg_revoked = self.deleg_revoked_pairs.iter().any(|(e, s)| *s == sec && dist.contains_key(e));
+                    let why = if sibling_expired {
+                        "expired-ttl-sibling-grant-of-same-pair"
+                    } else if deleg_revoked {
+                        "revoked-delegation-took-sibling-grants-of-same-pair"
+                    } else {
+                        "unexplained"
+                    };
                     let pre = self.tainted.map_or(String::new(), |t| format!("{t}: "));
                     self.obs.insert(format!("{pre}over-deny/{op}/{why}"));
                     self.ctx.probe("over_deny_observed");
-                    self.ctx.event(&format!("OBS over-deny {op} by {req} on #{sec}: model certain level {}", lvl_name(pmin)));
+                    self.ctx.event(&format!("OBS over-deny {op} by {} on #{sec}: model certain level {}", short(req), lvl_name(pmin)));
                 }
             },
             _ => {},
@@ -905,13 +1040,41 @@ impl<'a> Run<'a> {
         if self.deleted_secs.contains(&sec) {
             self.ctx.probe("delete_then_access");
         }
+        // a call that the entries of a taken-back delegation would have allowed, and that what
+        // is left (nothing, or a lower level from another delegation / grant) does not
+        if pmax < need
+            && self.m.grants.iter().any(|g| {
+                g.sec == sec
+                    && g.rec.is_some()
+                    && g.dead == Some("revoked")
+                    && g.level >= need
+                    && dist.contains_key(&g.grantee)
+                    && self.deleg_revoked_pairs.contains(&(g.grantee.clone(), sec))
+            })
+        {
+            self.ctx.probe("deleg_revoke_then_access");
+            if pmax > 0 {
+                self.ctx.probe("deleg_revoke_then_access_lower_level_left");
+            }
+        }
+        // the requester's key is a near-duplicate of a principal that the model allows
+        if let Some(orig) = self.names.alias_of.get(req) {
+            let lo = if orig == Vault::ROOT { 3 } else { self.m.perm(orig, sec, t0, t1, Bound::Min, Hyp::default()).0 };
+            if lo >= need && pmax < need && self.m.exists[sec] {
+                self.ctx.probe("near_duplicate_of_allowed_principal_calls");
+                if orig == Vault::ROOT {
+                    self.ctx.probe("near_duplicate_of_root_calls");
+                } else if self.m.reach(orig).len() > 1 && self.m.perm(orig, sec, t0, t1, Bound::Min, Hyp::default()).1 >= 2 {
+                    self.ctx.probe("near_duplicate_of_group_member_calls");
+                }
+            }
+        }
         if op == "grant" && pmax < 3 {
             self.ctx.probe("grant_by_non_admin");
         }
         if pmax == 0 && dist.len() > 1 && self.m.grants.iter().any(|g| g.sec == sec && g.dead.is_none()) {
             self.ctx.probe("member_without_grant");
         }
-        let _ = need;
     }
 
     fn kill_grants(&mut self, pred: impl Fn(&MGrant) -> bool, why: &'static str) {
@@ -931,7 +1094,8 @@ impl<'a> Run<'a> {
                 format!("err {}", d.split('(').next().unwrap_or("?"))
             },
         };
-        self.ctx.event(&format!("{what} -> {s} @{}", self.now()));
+        // identity keys may hold control / invisible characters: the log shows them escaped
+        self.ctx.event(&format!("{} -> {s} @{}", what.escape_debug(), self.now()));
     }
 
     fn step(&mut self, i: usize, st: &Step) {
@@ -1021,7 +1185,7 @@ impl<'a> Run<'a> {
                         let reason = if self.m.exists[s] { self.m.reason(&req, s, t0, t1, 1) } else { "no-such-secret" };
                         let pre = self.tainted.map_or(String::new(), |t| format!("{t}: "));
                         self.obs.insert(format!("{pre}outside-quantifier: get_version succeeded without a live grant/{reason}"));
-                        self.ctx.event(&format!("OBS get_version by {req} on #{s} succeeded without a live grant ({reason})"));
+                        self.ctx.event(&format!("OBS get_version by {} on #{s} succeeded without a live grant ({reason})", short(&req)));
                     }
                 }
             },
@@ -1076,7 +1240,15 @@ impl<'a> Run<'a> {
                                     let dist = self.m.reach(&req);
                                     let sib = self.m.grants.iter().any(|g| g.sec == slot && dist.contains_key(&g.grantee) && g.exp.is_some_and(|(lo, _)| lo <= t1));
                                     let pre = self.tainted.map_or(String::new(), |t| format!("{t}: "));
-                                    self.obs.insert(format!("{pre}over-deny/list/{}", if sib { "expired-ttl-sibling-grant-of-same-pair" } else { "unexplained" }));
+                                    let dr = self.deleg_revoked_pairs.iter().any(|(e, s)| *s == slot && dist.contains_key(e));
+                                    let why = if sib {
+                                        "expired-ttl-sibling-grant-of-same-pair"
+                                    } else if dr {
+                                        "revoked-delegation-took-sibling-grants-of-same-pair"
+                                    } else {
+                                        "unexplained"
+                                    };
+                                    self.obs.insert(format!("{pre}over-deny/list/{why}"));
                                 } else {
                                     self.denied_calls += 1;
                                     // a refused listing is an access decision too: feed the probes
@@ -1216,14 +1388,147 @@ impl<'a> Run<'a> {
                         _ => 1,
                     };
                     let level = lvl.min(reported);
+                    // the record of this call; the vault keeps one record per (parent, child):
+                    // an earlier one between the same two is replaced (its entries stay in the
+                    // model: nothing revoked them)
+                    let rec_id = self.m.next_rec;
+                    self.m.next_rec += 1;
+                    self.m.rec_parent.push(parent.clone());
+                    if self.m.records.insert((parent.clone(), child.clone()), MRecord { id: rec_id, secs: list.clone() }).is_some() {
+                        self.ctx.probe("delegation_record_replaced");
+                    }
+                    // another record (any parent, live or stale) to the same child names one of
+                    // these secrets
+                    let overlapping = self
+                        .m
+                        .records
+                        .iter()
+                        .filter(|((p, c), r)| c == &child && p != &parent && r.secs.iter().any(|s| list.contains(s)))
+                        .count();
+                    if overlapping > 0 {
+                        self.ctx.probe("several_delegations_one_child_secret");
+                        let lv: BTreeSet<u8> = self
+                            .m
+                            .grants
+                            .iter()
+                            .filter(|g| g.dead.is_none() && g.rec.is_some() && g.grantee == child && list.contains(&g.sec))
+                            .map(|g| g.level)
+                            .collect();
+                        if lv.iter().any(|l| *l != level) {
+                            self.ctx.probe("several_delegations_different_levels");
+                        }
+                        // ... and one of those records is stale: it was made for an earlier
+                        // secret of the same name, deleted since
+                        let stale = self.m.records.iter().any(|((p, c), r)| {
+                            c == &child
+                                && p != &parent
+                                && r.secs.iter().any(|s| {
+                                    list.contains(s) && self.m.grants.iter().any(|g| g.rec == Some(r.id) && g.sec == *s && g.dead == Some("deleted-secret"))
+                                })
+                        });
+                        if stale {
+                            self.ctx.probe("redelegated_after_recreate");
+                        }
+                    }
                     for s in &list {
                         // revocation state of an earlier grant does not touch the new one
                         self.revoked_pairs.remove(&(child.clone(), *s));
-                        self.m.grants.push(MGrant { grantee: child.clone(), sec: *s, level, exp, dead: None, ttl_idx });
+                        self.m.grants.push(MGrant { grantee: child.clone(), sec: *s, level, exp, dead: None, ttl_idx, rec: Some(rec_id) });
                     }
                     self.ctx.fp(if list.len() >= 2 { "delegate-multi-ok" } else { "delegate-ok" });
                 }
                 self.check_at_rest("delegate");
+            },
+            Step::RevokeDeleg { parent, child, cascade } => {
+                // "revoking, expiring or deleting removes the ability at once": taking a
+                // delegation back is revoking the grants that delegation made. The calls take no
+                // requester (whoever holds the vault handle may call them): there is no access
+                // decision to judge here, only the effect on later decisions.
+                let parent = self.names.who(*parent).to_string();
+                let child = self.names.nonroot(*child).to_string();
+                if parent == child {
+                    return;
+                }
+                let (pd, cd) = (short(&parent), short(&child));
+                if *cascade {
+                    let r = self.v().revoke_delegation_cascading(&parent, &child);
+                    self.log_res(&format!("{i} revoke_delegation_cascading {pd} {cd}"), &r);
+                    if let Err(e) = &r {
+                        self.check_error_text("revoke_delegation", e);
+                    }
+                    if let Ok(real) = &r {
+                        // documented: "Revoke a delegation and all transitive sub-delegations":
+                        // the record parent -> child, then every record whose parent is a
+                        // child reached so far
+                        let mut gone: Vec<((String, String), MRecord)> = Vec::new();
+                        if let Some(rec) = self.m.records.remove(&(parent.clone(), child.clone())) {
+                            gone.push(((parent.clone(), child.clone()), rec));
+                        }
+                        let mut queue = VecDeque::from([child.clone()]);
+                        while let Some(cur) = queue.pop_front() {
+                            let keys: Vec<(String, String)> = self.m.records.keys().filter(|(p, _)| p == &cur).cloned().collect();
+                            for k in keys {
+                                if let Some(rec) = self.m.records.remove(&k) {
+                                    queue.push_back(k.1.clone());
+                                    gone.push((k, rec));
+                                }
+                            }
+                        }
+                        let mut a: Vec<(String, String)> = gone.iter().map(|(k, _)| k.clone()).collect();
+                        let mut b: Vec<(String, String)> = real.iter().map(|r| (r.parent.clone(), r.child.clone())).collect();
+                        a.sort();
+                        b.sort();
+                        if a != b {
+                            self.obs.insert("revoke_delegation_cascading reported other records than the model's delegation tree".into());
+                            self.ctx.event(&format!("OBS cascading: model {} records, vault {}", a.len(), b.len()));
+                        }
+                        if gone.len() >= 2 {
+                            self.ctx.probe("cascading_revoke_of_a_chain");
+                        }
+                        if !gone.is_empty() {
+                            self.ctx.fp("deleg-revoke-casc-ok");
+                        }
+                        for ((_, c), rec) in gone {
+                            self.settle_deleg_revoked(&c, &rec);
+                        }
+                    }
+                } else {
+                    let r = self.v().revoke_delegation(&parent, &child);
+                    self.log_res(&format!("{i} revoke_delegation {pd} {cd}"), &r);
+                    if let Err(e) = &r {
+                        self.check_error_text("revoke_delegation", e);
+                    }
+                    match &r {
+                        Ok(real_secs) => match self.m.records.remove(&(parent.clone(), child.clone())) {
+                            Some(rec) => {
+                                let mut a: Vec<&str> = rec.secs.iter().map(|s| self.names.secrets[*s].as_str()).collect();
+                                let mut b: Vec<&str> = real_secs.iter().map(String::as_str).collect();
+                                a.sort_unstable();
+                                b.sort_unstable();
+                                if a != b {
+                                    self.obs.insert("revoke_delegation reported other secrets than the delegation record of the model".into());
+                                }
+                                self.ctx.fp("deleg-revoke-ok");
+                                self.settle_deleg_revoked(&child, &rec);
+                            },
+                            None => {
+                                self.obs.insert("revoke_delegation succeeded on a delegation the model does not know".into());
+                            },
+                        },
+                        Err(VaultError::NotFound(_)) => {
+                            if self.m.records.contains_key(&(parent.clone(), child.clone())) {
+                                self.obs.insert("revoke_delegation: NotFound for a delegation the model holds".into());
+                            }
+                        },
+                        Err(_) => {
+                            // the record is taken out of the manager before the edges are removed:
+                            // a failure half-way leaves no record and revokes nothing for the model
+                            self.m.records.remove(&(parent.clone(), child.clone()));
+                            self.obs.insert("revoke_delegation failed half-way".into());
+                        },
+                    }
+                }
+                self.check_at_rest("revoke_delegation");
             },
             Step::BatchGet { who, secs } => {
                 let req = self.names.who(*who).to_string();
@@ -1402,7 +1707,7 @@ impl<'a> Run<'a> {
                     return;
                 }
                 self.set_member(&c, &g, *on);
-                self.ctx.event(&format!("{i} member {c} -> {g} {}", if *on { "add" } else { "remove" }));
+                self.ctx.event(&format!("{i} member {} -> {} {}", short(&c), short(&g), if *on { "add" } else { "remove" }));
                 self.ctx.fp(if *on { "member+" } else { "member-" });
             },
             Step::Advance { g, rel, off_ns } => {
@@ -1465,6 +1770,49 @@ impl<'a> Run<'a> {
         }
     }
 
+    /// The delegation record `rec` (to `child`) was taken back: its entries — and only its
+    /// entries — are revoked. What other records, or plain grants, give the child stays in
+    /// force in the model (the vault removes more: every access edge of the pair; that is an
+    /// over-deny, which the text does not forbid).
+    fn settle_deleg_revoked(&mut self, child: &str, rec: &MRecord) {
+        let sibling = self.m.records.iter().any(|((_, c), r)| c == child && r.secs.iter().any(|s| rec.secs.contains(s)));
+        if sibling {
+            self.ctx.probe("deleg_revoke_with_sibling_record");
+        }
+        for s in &rec.secs {
+            let mine = self.m.grants.iter().filter(|g| g.rec == Some(rec.id) && g.sec == *s && g.dead.is_none()).map(|g| g.level).max();
+            let others = self
+                .m
+                .grants
+                .iter()
+                .filter(|g| g.rec.is_some() && g.rec != Some(rec.id) && g.sec == *s && g.grantee == child && g.dead.is_none())
+                .map(|g| g.level)
+                .max();
+            if let (Some(a), Some(b)) = (mine, others) {
+                if a > b {
+                    self.ctx.probe("deleg_revoke_of_the_higher_of_two");
+                }
+            }
+            // (also when the record's own entries were dead already — a stale record: the vault
+            // removes the pair's edges all the same)
+            self.deleg_revoked_pairs.insert((child.to_string(), *s));
+        }
+        let id = rec.id;
+        self.kill_grants(|g| g.rec == Some(id), "revoked");
+        // entries of an earlier delegation between the same two, whose record this one
+        // replaced: the call does not name their secrets as revoked, the model keeps them
+        // (candidate finding, reported as an observation: they cannot be taken back through
+        // revoke_delegation any more, only through revoke / delete / expiry)
+        let parent = self.m.rec_parent.get(id as usize).cloned().unwrap_or_default();
+        let left = self.m.grants.iter().any(|g| {
+            g.dead.is_none() && g.grantee == child && g.rec.is_some_and(|r| r != id && self.m.rec_parent.get(r as usize) == Some(&parent)) && !rec.secs.contains(&g.sec)
+        });
+        if left {
+            self.ctx.probe("replaced_delegation_outlives_revoke_delegation");
+            self.obs.insert("revoke_delegation leaves the grants of an earlier, replaced delegation parent->child (other secrets) in force".into());
+        }
+    }
+
     /// slots of a step's secret list, in order, without repetitions
     fn slots(&self, secs: &[u8]) -> Vec<usize> {
         let mut out: Vec<usize> = Vec::new();
@@ -1507,7 +1855,7 @@ impl<'a> Run<'a> {
             self.violation(
                 0,
                 format!("C14.access-without-live-grant/{create_op}/{reason}"),
-                format!("{op} by {req} created secret #{s} although no grant can exist for it"),
+                format!("{op} by {} created secret #{s} although no grant can exist for it", self.describe(req)),
             );
             true
         } else {
@@ -1535,13 +1883,17 @@ impl<'a> Run<'a> {
             .iter()
             .copied()
             .find(|(s, need)| !self.m.exists[*s] || self.m.perm(req, *s, t0, t1, Bound::Min, Hyp::default()).0 < *need);
-        // certainly allowed on every pair: report the over-deny on the pair that carries the
-        // known cause (an expired TTL sibling grant of the same pair), if one does
+        // certainly allowed on every pair: report the over-deny on the pair that carries a
+        // known cause (an expired TTL sibling grant of the same pair, a taken-back delegation
+        // record that named the pair), if one does
         let dist = self.m.reach(req);
         let with_sibling = pairs
             .iter()
             .copied()
-            .find(|(s, _)| self.m.grants.iter().any(|g| g.sec == *s && dist.contains_key(&g.grantee) && g.exp.is_some_and(|(lo, _)| lo <= t1)));
+            .find(|(s, _)| {
+                self.m.grants.iter().any(|g| g.sec == *s && dist.contains_key(&g.grantee) && g.exp.is_some_and(|(lo, _)| lo <= t1))
+                    || self.deleg_revoked_pairs.iter().any(|(e, x)| x == s && dist.contains_key(e))
+            });
         let (s, need) = explained.or(with_sibling).unwrap_or(first);
         self.judge(op, req, s, need, Outcome::Denied, t0, t1, mutating);
     }
@@ -1575,7 +1927,7 @@ impl<'a> Run<'a> {
                 self.ttl_windows.len() - 1
             });
             self.revoked_pairs.remove(&(ent.clone(), s));
-            self.m.grants.push(MGrant { grantee: ent, sec: s, level: lvl, exp, dead: None, ttl_idx });
+            self.m.grants.push(MGrant { grantee: ent, sec: s, level: lvl, exp, dead: None, ttl_idx, rec: None });
             self.ctx.fp(if ttl_ms.is_some() { "grant-ttl-ok" } else { "grant-ok" });
         }
         self.check_at_rest("grant");
@@ -1620,6 +1972,9 @@ fn run_case(case: &Case, ctx: &Arc<RunCtx>) -> RunOut {
             value: vec![None; n_sec],
             grants: Vec::new(),
             members: BTreeSet::new(),
+            records: BTreeMap::new(),
+            next_rec: 0,
+            rec_parent: Vec::new(),
             admin_limit: case.cfg.admin_limit as usize,
             write_limit: case.cfg.write_limit as usize,
             horizon: case.cfg.horizon as usize,
@@ -1632,6 +1987,7 @@ fn run_case(case: &Case, ctx: &Arc<RunCtx>) -> RunOut {
         last_cleanup: 0,
         tainted: None,
         revoked_pairs: BTreeSet::new(),
+        deleg_revoked_pairs: BTreeSet::new(),
         deleted_secs: BTreeSet::new(),
         viols: Vec::new(),
         obs: BTreeSet::new(),
@@ -1684,6 +2040,153 @@ fn run_case(case: &Case, ctx: &Arc<RunCtx>) -> RunOut {
 
 // ---------------------------------------------------------------- generator
 
+struct GenEnv {
+    n_ids: u8,
+    n_principals: u8,
+    n_create: u8,
+}
+
+type AccessOp<'a> = &'a dyn Fn(&mut Rng, u8, u8, bool, &mut dyn FnMut() -> u32) -> Step;
+
+/// Several parents hold one secret (sometimes two) at levels drawn independently and
+/// delegate it to ONE child — directly or through a middle agent — at the level they hold
+/// (sometimes another). The child calls. Sometimes the secret is deleted and created again
+/// under the same name and some parents are granted and delegate again. Then the delegations
+/// are taken back in any order, plain or cascading, the child calling after each.
+#[allow(clippy::too_many_arguments)]
+fn gen_deleg_cluster(
+    rng: &mut Rng,
+    env: &GenEnv,
+    steps: &mut Vec<Step>,
+    holders: &mut Vec<(u8, u8)>,
+    delegs: &mut Vec<(u8, u8, Vec<u8>)>,
+    access: AccessOp<'_>,
+    nv: &mut dyn FnMut() -> u32,
+    sec_hint: Option<u8>,
+) {
+    let (n_ids, n_pr, n_create) = (env.n_ids, env.n_principals, env.n_create);
+    // the child: an identity, often one that was delegated to before
+    let child = if !delegs.is_empty() && rng.chance(1, 2) {
+        let c = delegs[rng.usize_below(delegs.len())].1;
+        if c >= 1 && c <= n_ids { c } else { rng.range(1, u64::from(n_ids)) as u8 }
+    } else {
+        rng.range(1, u64::from(n_ids)) as u8
+    };
+    let s = sec_hint.unwrap_or_else(|| rng.below(u64::from(n_create)) as u8);
+    let s2 = if n_create >= 2 && rng.chance(1, 3) { Some((s + 1 + rng.below(u64::from(n_create) - 1) as u8) % n_create) } else { None };
+    // 2-3 parents (identities or groups; root itself 1 in 8), each with the level it holds
+    let want = rng.range(2, 3) as usize;
+    let mut parents: Vec<(u8, u8)> = Vec::new();
+    for _ in 0..12 {
+        if parents.len() >= want {
+            break;
+        }
+        let p = if rng.chance(1, 8) { 0 } else { rng.range(1, u64::from(n_pr) - 1) as u8 };
+        if p != child && !parents.iter().any(|(q, _)| *q == p) {
+            parents.push((p, rng.range(1, 3) as u8));
+        }
+    }
+    if parents.len() < 2 {
+        return;
+    }
+    let grant_to = |rng: &mut Rng, steps: &mut Vec<Step>, holders: &mut Vec<(u8, u8)>, p: u8, lp: u8| {
+        if p == 0 {
+            return;
+        }
+        steps.push(Step::GrantPerm { who: 0, to: p - 1, sec: s, lvl: lp });
+        holders.push((p, s));
+        if let Some(s2) = s2 {
+            steps.push(Step::GrantPerm { who: 0, to: p - 1, sec: s2, lvl: rng.range(1, 3) as u8 });
+            holders.push((p, s2));
+        }
+    };
+    for (p, lp) in parents.clone() {
+        grant_to(rng, steps, holders, p, lp);
+    }
+    // (parent, child) pairs whose delegation can be taken back; the flag: made through a middle agent
+    let mut revocable: Vec<(u8, u8, bool)> = Vec::new();
+    let mut order = parents.clone();
+    for k in (1..order.len()).rev() {
+        order.swap(k, rng.usize_below(k + 1));
+    }
+    for (p, lp) in &order {
+        let lvl = if rng.chance(5, 6) { *lp } else { rng.range(1, 3) as u8 };
+        let more: Vec<u8> = match s2 {
+            Some(x) if rng.chance(1, 2) => vec![x],
+            _ => Vec::new(),
+        };
+        let ttl_ms = if rng.chance(1, 8) { Some(*rng.pick(&[20u32, 1_000, 60_000])) } else { None };
+        let mut all = vec![s];
+        all.extend(more.iter().copied());
+        let mid = rng.range(1, u64::from(n_ids)) as u8;
+        if rng.chance(1, 4) && mid != child && mid != *p && !parents.iter().any(|(q, _)| *q == mid) {
+            steps.push(Step::Delegate { who: *p, to: mid - 1, sec: s, lvl, ttl_ms: None, more: more.clone() });
+            steps.push(Step::Delegate { who: mid, to: child - 1, sec: s, lvl, ttl_ms, more: more.clone() });
+            delegs.push((*p, mid, all.clone()));
+            delegs.push((mid, child, all.clone()));
+            revocable.push((*p, mid, true));
+            if rng.chance(1, 2) {
+                revocable.push((mid, child, false));
+            }
+            for x in &all {
+                holders.push((mid, *x));
+            }
+        } else {
+            steps.push(Step::Delegate { who: *p, to: child - 1, sec: s, lvl, ttl_ms, more: more.clone() });
+            delegs.push((*p, child, all.clone()));
+            revocable.push((*p, child, false));
+        }
+        for x in &all {
+            holders.push((child, *x));
+        }
+    }
+    if rng.chance(2, 3) {
+        steps.push(access(rng, child, s, true, nv));
+    }
+    if rng.chance(1, 4) {
+        // the secret goes and comes back under the same name; the records made for the old
+        // one stay where they are
+        steps.push(Step::Delete { who: 0, sec: s });
+        if rng.chance(1, 2) {
+            steps.push(access(rng, child, s, false, nv));
+        }
+        steps.push(Step::Set { who: 0, sec: s, val: nv(), sz: rng.below(5) as u8 });
+        let mut again = 0;
+        for (k, (p, lp)) in parents.clone().into_iter().enumerate() {
+            if rng.chance(2, 3) || (again == 0 && k + 1 == parents.len()) {
+                again += 1;
+                grant_to(rng, steps, holders, p, lp);
+                steps.push(Step::Delegate { who: p, to: child - 1, sec: s, lvl: lp, ttl_ms: None, more: Vec::new() });
+                delegs.push((p, child, vec![s]));
+                if !revocable.iter().any(|(a, b, _)| *a == p && *b == child) {
+                    revocable.push((p, child, false));
+                }
+            }
+        }
+        if rng.chance(1, 2) {
+            steps.push(access(rng, child, s, true, nv));
+        }
+    }
+    for k in (1..revocable.len()).rev() {
+        revocable.swap(k, rng.usize_below(k + 1));
+    }
+    for (p, c, via_mid) in revocable {
+        if !rng.chance(4, 5) {
+            continue;
+        }
+        let cascade = if via_mid { rng.chance(2, 3) } else { rng.chance(1, 3) };
+        steps.push(Step::RevokeDeleg { parent: p, child: c - 1, cascade });
+        let on = match s2 {
+            Some(x) if rng.chance(1, 4) => x,
+            _ => s,
+        };
+        steps.push(access(rng, child, on, true, nv));
+        if rng.chance(1, 3) {
+            steps.push(access(rng, child, s, false, nv));
+        }
+    }
+}
+
 fn gen_case(rng: &mut Rng, tier: Tier, index: u64) -> Case {
     let name_mode = if rng.chance(1, 5) { 1 } else { 0 };
     let n_ids = rng.range(3, 5) as u8;
@@ -1700,6 +2203,29 @@ fn gen_case(rng: &mut Rng, tier: Tier, index: u64) -> Case {
         4 => (1, 2, 3),
         _ => (1, 3, 3),
     };
+    let n_principals = 1 + n_ids + n_groups;
+    // near-duplicate identities, in a third of the cases: one or two identity slots carry the
+    // key of another principal (root 1 in 4, else an identity or a group) altered slightly
+    let mut lookalikes: Vec<Lookalike> = Vec::new();
+    if rng.chance(1, 3) {
+        let n = if rng.chance(1, 3) { 2 } else { 1 };
+        let mut slots: Vec<u8> = (1..=n_ids).collect();
+        let mut chosen: Vec<u8> = Vec::new();
+        for _ in 0..n {
+            chosen.push(slots.remove(rng.usize_below(slots.len())));
+        }
+        for slot in &chosen {
+            let of = if rng.chance(1, 4) {
+                0
+            } else {
+                let cands: Vec<u8> = (1..n_principals).filter(|p| !chosen.contains(p)).collect();
+                *rng.pick(&cands)
+            };
+            lookalikes.push(Lookalike { slot: *slot, of, kind: rng.below(u64::from(N_LOOKALIKE_KINDS)) as u8 });
+        }
+    }
+    // principal index -> identity slot that is its near-duplicate
+    let twin_of = |p: u8| -> Option<u8> { lookalikes.iter().find(|l| l.of == p).map(|l| l.slot) };
     let cfg = Cfg {
         n_ids,
         n_groups,
@@ -1711,10 +2237,10 @@ fn gen_case(rng: &mut Rng, tier: Tier, index: u64) -> Case {
         name_mode,
         max_versions: rng.range(1, 5) as u8,
         name_seed: rng.next_u64(),
+        lookalikes: lookalikes.clone(),
     };
     let observation_mode = rng.chance(1, 12);
     let max_steps = if tier == Tier::Quick { 40 } else { 40 };
-    let n_principals = 1 + n_ids + n_groups;
     let mut steps: Vec<Step> = Vec::new();
     let mut val = (index as u32) << 8;
     let mut next_val = || {
@@ -1735,9 +2261,12 @@ fn gen_case(rng: &mut Rng, tier: Tier, index: u64) -> Case {
     let mut n_ttl = 0u8;
     // pending expiry visits: (ttl index, holder principal, secret)
     let mut pending: Vec<(u8, u8, u8)> = Vec::new();
+    // delegations issued so far: (parent principal, child principal, secrets) — guess only
+    let mut delegs: Vec<(u8, u8, Vec<u8>)> = Vec::new();
 
     // phase 1: root creates secrets
     let n_create = rng.range(2, u64::from(n_secrets).min(4)) as u8;
+    let env = GenEnv { n_ids, n_principals, n_create };
     for s in 0..n_create {
         steps.push(Step::Set { who: 0, sec: s, val: next_val(), sz: sz(rng) });
     }
@@ -1825,15 +2354,30 @@ fn gen_case(rng: &mut Rng, tier: Tier, index: u64) -> Case {
         };
         if !holders.is_empty() && rng.chance(7, 10) {
             let (p, s) = holders[rng.usize_below(holders.len())];
+            // the near-duplicate of a holder (or of a member of a holding group) asks instead
+            if let Some(t) = twin_of(p) {
+                if rng.chance(1, 3) {
+                    return (t, s);
+                }
+            }
             // a group holds nothing by itself being asked: let one of the identities ask
             let p = if p > n_ids && rng.chance(3, 4) { rng.range(1, u64::from(n_ids)) as u8 } else { p };
+            if let Some(t) = twin_of(p) {
+                if rng.chance(1, 4) {
+                    return (t, s);
+                }
+            }
             if rng.chance(1, 8) {
                 (p, any_sec(rng))
             } else {
                 (p, s)
             }
         } else if rng.chance(1, 8) {
-            (0, any_sec(rng))
+            // root, or the identity whose key nearly is root's
+            match twin_of(0) {
+                Some(t) if rng.chance(1, 2) => (t, any_sec(rng)),
+                _ => (0, any_sec(rng)),
+            }
         } else {
             (rng.range(1, u64::from(n_principals) - 1) as u8, any_sec(rng))
         }
@@ -1889,6 +2433,12 @@ fn gen_case(rng: &mut Rng, tier: Tier, index: u64) -> Case {
             Step::BatchSet { who, secs, val: v, sz: sz(rng), detailed: rng.chance(1, 2) }
         }
     };
+
+    // phase 3c: several parents delegate overlapping secrets to one child, at the levels they
+    // hold; each delegation is taken back, in any order
+    if rng.chance(2, 5) {
+        gen_deleg_cluster(rng, &env, &mut steps, &mut holders, &mut delegs, &access_op, &mut next_val, None);
+    }
 
     while steps.len() < max_steps {
         // serve a pending expiry visit first, sometimes
@@ -1959,6 +2509,9 @@ fn gen_case(rng: &mut Rng, tier: Tier, index: u64) -> Case {
             let ttl_ms = if rng.chance(2, 5) { Some(*rng.pick(&[1u32, 20, 1_000, 60_000])) } else { None };
             let more = if rng.chance(1, 2) { multi_secs(rng, &holders, p, sec) } else { Vec::new() };
             steps.push(Step::Delegate { who: p, to, sec, lvl: rng.range(1, 3) as u8, ttl_ms, more: more.clone() });
+            let mut all = vec![sec];
+            all.extend(more.iter().copied());
+            delegs.push((p, to + 1, all));
             holders.push((to + 1, sec));
             for s in &more {
                 holders.push((to + 1, *s));
@@ -2000,6 +2553,44 @@ fn gen_case(rng: &mut Rng, tier: Tier, index: u64) -> Case {
                     next_val();
                 }
                 steps.push(Step::BatchSet { who: w, secs, val: v, sz: sz(rng), detailed: rng.chance(1, 2) });
+            }
+        } else if r < 68 {
+            // a delegation is taken back (usually one that was made), then often the child —
+            // or, of a group, a member — calls
+            let (p, c, secs) = if !delegs.is_empty() && rng.chance(5, 6) {
+                delegs[rng.usize_below(delegs.len())].clone()
+            } else {
+                (rng.below(u64::from(n_principals)) as u8, rng.range(1, u64::from(n_principals) - 1) as u8, vec![rng.below(u64::from(n_create)) as u8])
+            };
+            steps.push(Step::RevokeDeleg { parent: p, child: c - 1, cascade: rng.chance(1, 3) });
+            if rng.chance(3, 4) {
+                let w = if c > n_ids && rng.chance(1, 2) { rng.range(1, u64::from(n_ids)) as u8 } else { c };
+                let s = secs[rng.usize_below(secs.len())];
+                steps.push({ let mb = rng.chance(1, 2); access_op(rng, w, s, mb, &mut next_val) });
+            }
+        } else if r < 71 {
+            gen_deleg_cluster(rng, &env, &mut steps, &mut holders, &mut delegs, &access_op, &mut next_val, None);
+        } else if r < 74 {
+            // a secret is deleted and created again under the same name; former holders call,
+            // grants and delegations on the new secret follow
+            let sec = rng.below(u64::from(n_create)) as u8;
+            let former: Vec<u8> = holders.iter().filter(|(_, s)| *s == sec).map(|(p, _)| *p).collect();
+            steps.push(Step::Delete { who: 0, sec });
+            if !former.is_empty() && rng.chance(1, 2) {
+                let w = *rng.pick(&former);
+                steps.push(access_op(rng, w, sec, false, &mut next_val));
+            }
+            steps.push(Step::Set { who: 0, sec, val: next_val(), sz: rng.below(5) as u8 });
+            if !former.is_empty() && rng.chance(1, 2) {
+                let w = *rng.pick(&former);
+                steps.push({ let mb = rng.chance(1, 2); access_op(rng, w, sec, mb, &mut next_val) });
+            }
+            if rng.chance(1, 2) {
+                gen_deleg_cluster(rng, &env, &mut steps, &mut holders, &mut delegs, &access_op, &mut next_val, Some(sec));
+            } else {
+                let to = if !former.is_empty() && rng.chance(2, 3) { *rng.pick(&former) - 1 } else { to_any(rng) };
+                steps.push(Step::GrantPerm { who: 0, to, sec, lvl: rng.range(1, 3) as u8 });
+                holders.push((to + 1, sec));
             }
         } else {
             let (w, s) = pick_who(rng, &holders);
@@ -2100,6 +2691,11 @@ impl Scenario for C14 {
                         v.push(c);
                     }
                 },
+                Step::RevokeDeleg { parent, child, cascade: true } => {
+                    let mut c = case.clone();
+                    c.steps[i] = Step::RevokeDeleg { parent: *parent, child: *child, cascade: false };
+                    v.push(c);
+                },
                 Step::Grant { who, to, sec } if *who != 0 => {
                     let mut c = case.clone();
                     c.steps[i] = Step::Grant { who: 0, to: *to, sec: *sec };
@@ -2116,6 +2712,26 @@ impl Scenario for C14 {
                     v.push(c);
                 },
                 _ => {},
+            }
+        }
+        // well-formed identity keys only; one near-duplicate less; the plainest alteration
+        if !case.cfg.lookalikes.is_empty() {
+            let mut c = case.clone();
+            c.cfg.lookalikes.clear();
+            v.push(c);
+            if case.cfg.lookalikes.len() > 1 {
+                for k in 0..case.cfg.lookalikes.len() {
+                    let mut c = case.clone();
+                    c.cfg.lookalikes.remove(k);
+                    v.push(c);
+                }
+            }
+            for k in 0..case.cfg.lookalikes.len() {
+                if case.cfg.lookalikes[k].kind != 0 {
+                    let mut c = case.clone();
+                    c.cfg.lookalikes[k].kind = 0;
+                    v.push(c);
+                }
             }
         }
         if case.cfg.max_versions != 5 {
@@ -2148,14 +2764,29 @@ impl Scenario for C14 {
             "multi_delegate_above_weakest_level",
             "batch_get_mixed_allow_deny",
             "batch_set_mixed_allow_deny",
+            // delegation records: several to one child on one secret, at different levels;
+            // one of them taken back (the higher one; through the cascading call; a record made
+            // for a deleted secret of the same name still present), then the child calls
+            "several_delegations_different_levels",
+            "deleg_revoke_with_sibling_record",
+            "deleg_revoke_of_the_higher_of_two",
+            "deleg_revoke_then_access",
+            "deleg_revoke_then_access_lower_level_left",
+            "cascading_revoke_of_a_chain",
+            "redelegated_after_recreate",
+            // near-duplicate identity keys: of a principal the model allows, of a member of a
+            // group that holds the grant, of root
+            "near_duplicate_of_allowed_principal_calls",
+            "near_duplicate_of_group_member_calls",
+            "near_duplicate_of_root_calls",
         ]
     }
     fn rule(&self) -> String {
-        "A case is a generated program of <=40 steps over root, 3-5 identities, 0-4 groups and 2-6 secrets in 2-3 namespaces (set/get/list/rotate/delete/grant/grant_with_permission/grant_with_ttl/revoke/delegate over one or several secrets/batch_get/batch_set/batch_set_detailed/MEMBER edge add+remove, clock advances aimed before/at/after a TTL grant's expiry window, snapshots) plus an attenuation policy (admin_limit, write_limit, horizon) and a naming mode (long unique alphanumeric names+values with at-rest checks, or short/non-ASCII names and arbitrary UTF-8 values with only the allow/deny matrix judged). Every call's outcome is compared with an independent access model; a call over a list of secrets is one decision per (identity, secret) pair. Non-trivial: at least 2 calls were allowed and at least 1 was refused. Distinct: hash of (naming mode, attenuation policy, sequence of successful operation kinds).".into()
+        "A case is a generated program of <=40 steps over root, 3-5 identities (in a third of the cases one or two of them carry a near-duplicate of another principal's or of root's key: surrounding white space, other case, a confusable or invisible character), 0-4 groups and 2-6 secrets in 2-3 namespaces (set/get/list/rotate/delete/grant/grant_with_permission/grant_with_ttl/revoke/delegate over one or several secrets, several parents to one child directly or through a middle agent/revoke_delegation/revoke_delegation_cascading/delete and re-create under the same name/batch_get/batch_set/batch_set_detailed/MEMBER edge add+remove, clock advances aimed before/at/after a TTL grant's expiry window, snapshots) plus an attenuation policy (admin_limit, write_limit, horizon) and a naming mode (long unique alphanumeric names+values with at-rest checks, or short/non-ASCII names and arbitrary UTF-8 values with only the allow/deny matrix judged). Every call's outcome is compared with an independent access model; a call over a list of secrets is one decision per (identity, secret) pair. Non-trivial: at least 2 calls were allowed and at least 1 was refused. Distinct: hash of (naming mode, attenuation policy, sequence of successful operation kinds).".into()
     }
     fn components(&self) -> Value {
         json!({
-            "real": ["tensor_vault::Vault (set, get, list, rotate, delete, grant, grant_with_permission, grant_with_ttl, revoke, delegate incl. multi-secret lists, batch_get, batch_set, batch_set_detailed, audit_recent, Vault::new reload)", "tensor_vault AccessController / AttenuationPolicy / GrantTTLTracker / DelegationManager / AuditLog / Obfuscator / Cipher", "graph_engine::GraphEngine (MEMBER edges through the public graph handle)", "tensor_store::TensorStore incl. snapshot_bytes"],
+            "real": ["tensor_vault::Vault (set, get, list, rotate, delete, grant, grant_with_permission, grant_with_ttl, revoke, delegate incl. multi-secret lists, revoke_delegation, revoke_delegation_cascading, batch_get, batch_set, batch_set_detailed, audit_recent, Vault::new reload)", "tensor_vault AccessController / AttenuationPolicy / GrantTTLTracker / DelegationManager / AuditLog / Obfuscator / Cipher", "graph_engine::GraphEngine (MEMBER edges through the public graph handle)", "tensor_store::TensorStore incl. snapshot_bytes"],
             "simulated": ["monotonic and wall clock (clock_gettime interposed; every read moves time by 100 ns)", "getrandom (nonces, salts, HashMap seeds)"],
             "stub": ["Argon2 cost at its minimum (8 KiB, t=1, p=1) through VaultConfig", "rate limiter disabled, vault never sealed"]
         })
@@ -2167,6 +2798,8 @@ impl Scenario for C14 {
             "level needed per call, from the Permission documentation: get/list Read; set (overwrite)/rotate Write; delete/grant/revoke Admin; creating a secret is reserved to root; delegate needs the delegated level (Vault::delegate documentation), not Admin".into(),
             "calls that take a list of secrets are judged per (identity, secret) pair: a successful delegate needs the delegated level on EVERY listed secret; batch_get / batch_set / batch_set_detailed are the list forms of get / set (Read / Write per entry, creating reserved to root); a list call refused as a whole is explained by any one listed pair the model does not certainly allow".into(),
             "after a batch_set that failed half-way (it stops at the first failing entry, in an order of its own) the harness reads the listed secrets back as root to learn which entries were written; that read runs the vault's cleanup pass".into(),
+            "delegations: the model keeps one entry per (delegation record, secret); the vault keeps one record per (parent, child), a later delegate between the same two replaces it; revoke_delegation(parent, child) revokes the entries of the current record of that pair, revoke_delegation_cascading that record and, transitively, every record whose parent is a child reached (documented: 'all transitive sub-delegations'); entries of a replaced record are not revoked by either (the call reports only the current record's secrets); the two calls take no requester, so they are no access decision themselves; the vault removes every access edge of the (child, secret) pairs of a revoked record, including other parents' and plain grants (observation over-deny/*/revoked-delegation-took-sibling-grants-of-same-pair)".into(),
+            "identities are the key strings the API takes: keys that differ in surrounding white space, case, a confusable or an invisible character are different principals ('a requester other than the root identity', 'a grant ... from that requester'); only the exact key node:root is root".into(),
             "distance = MEMBER hops + 1; attenuation as documented in attenuation.rs (Admin up to admin_limit hops, Write up to write_limit, Read up to horizon)".into(),
             "group membership is changed through the vault's public graph handle (MEMBER edges), the only way the crate offers".into(),
             "a namespace prefix appearing in clear is not counted as the secret's name appearing (observation namespace-prefix-at-rest)".into(),
